@@ -227,7 +227,7 @@ package pipeline
 
 //@ func (*Matrix).MarshalJSON
 //@   requires m != nil
-//@   assigns everything
+//@   assigns nothing
 //@   ensures [simple] ret1 == nil && old(simpleMatrix(m)) ==> jsonOf(ret0, box([]string, old(m.Setup[""])))
 
 // ---- string transformers and walkers (C04, C10, C12) ----
@@ -580,3 +580,55 @@ package pipeline
 //@ func (*Pipeline).Interpolate
 //@   requires p != nil && (p.Env != nil ==> ordered.wf(p.Env))
 //@   assigns everything
+
+// ---- C19: marshalling observes, it never writes the object (or anything else) ----
+// The JSON marshalers go through inlineFriendlyMarshalJSON, which aliases the
+// inline (RemainingFields) map of the object: the frame proves that the merged
+// output is built in a new map and the aliased one is only read.
+
+//@ func isEmptyValue
+//@   assigns nothing
+
+//@ func inlineFriendlyMarshalJSON
+//@   assigns nothing
+//@   loop 0
+//@     assigns *outlineFields
+//@     invariant [idx] 0 <= $idx && outlineFields != nil && fresh(outlineFields)
+//@   loop 1
+//@     assigns *allFields
+//@     invariant [fresh] allFields != nil && fresh(allFields)
+//@   loop 2
+//@     assigns *allFields
+//@     invariant [fresh] allFields != nil && fresh(allFields)
+
+//@ func (*Pipeline).MarshalJSON
+//@   assigns nothing
+//@ func (*CommandStep).MarshalJSON
+//@   assigns nothing
+//@ func (*GroupStep).MarshalJSON
+//@   assigns nothing
+//@ func (*Cache).MarshalJSON
+//@   requires c != nil
+//@   assigns nothing
+//@ func (*MatrixAdjustment).MarshalJSON
+//@   assigns nothing
+//@ func (*WaitStep).MarshalYAML
+//@   requires s != nil
+//@   assigns nothing
+//@ func (*WaitStep).MarshalJSON
+//@   requires s != nil
+//@   assigns nothing
+//@ func (*InputStep).MarshalYAML
+//@   requires s != nil
+//@   assigns nothing
+//@ func (*InputStep).MarshalJSON
+//@   requires s != nil
+//@   assigns nothing
+//@ func (TriggerStep).MarshalJSON
+//@   assigns nothing
+//@ func (*UnknownStep).MarshalYAML
+//@   requires u != nil
+//@   assigns nothing
+//@ func (*UnknownStep).MarshalJSON
+//@   requires u != nil
+//@   assigns nothing
